@@ -42,6 +42,13 @@ def gen_cases(tier, seed):
             d["max_errors"] = r.choice([0, None])
         out.append(d)
     out.extend(preempt.gen_descs(tier, seed, ID))  # deterministic single-preemption enumeration (vmon/preempt.py)
+    for i in range(max(20, n // 40)):
+        # "no call is executed more than once per attempt allowed by retry": several calls sharing one function object / call targets that are
+        # not plain functions, flaky, with retry (attempt budgets are per CALL) - scenarios shared with C10
+        s = env.seed_for(seed, ID, tier, "retry_shared", i)
+        r = random.Random(env.seed_for(s, "descriptor"))
+        out.append({"seed": s, "mode": r.choice(["retry_shared", "retry_callables"]), "n": r.randint(2, 7), "W": r.choice([1, 2, 4]), "sched": r.choice(["default", "random"]),
+                    "attempts": r.choice([2, 3, 4])})
     return out
 
 
@@ -58,6 +65,13 @@ def preempt_oracle(R, ir):
 
 
 def run_case(desc):
+    if desc.get("mode") in ("retry_shared", "retry_callables"):
+        from vmon.checks import c10
+
+        r_ = (c10.run_retry_shared if desc["mode"] == "retry_shared" else c10.run_retry_callables)(desc)
+        if r_.get("status") == "violation":
+            r_["mechanism"] = "execution-count"
+        return r_
     if desc.get("mode") == "preempt1":
         return preempt.enumerate_case(desc, preempt_oracle)
     R = plainrun.execute(desc, record_args=False)
